@@ -57,7 +57,30 @@ ARCHS_COMPILE_ONLY = [
     ("avx512er", "xsimd::avx512er", _avx512("cd", ["er"]), ["avx512er"]),
     ("avx512pf", "xsimd::avx512pf", _avx512("cd", ["er", "pf"]), ["avx512pf"]),
 ]
+# cross-target architectures: no cross sysroot, no emulator -> clang -fsyntax-only against the host's libstdc++ headers plus
+# the shims of /verif/shim (see shim/README); only compile-time obligations (C20) are decided for them.
+_XSYS = ["-nostdinc++", "-isystem", "/usr/include/c++/12", "-isystem", "/usr/include/x86_64-linux-gnu/c++/12", "-isystem", "/usr/include/x86_64-linux-gnu"]
+ARCHS_CROSS = [
+    ("neon", "xsimd::neon", "--target=armv7a-linux-gnueabihf -mfpu=neon -mfloat-abi=hard", "arm32"),
+    ("neon64", "xsimd::neon64", "--target=aarch64-linux-gnu", "aarch64"),
+    ("i8mm_neon64", "xsimd::i8mm<xsimd::neon64>", "--target=aarch64-linux-gnu -march=armv8.6-a+i8mm", "aarch64"),
+    ("sve128", "xsimd::sve", "--target=aarch64-linux-gnu -march=armv8-a+sve -msve-vector-bits=128", "aarch64"),
+    ("sve256", "xsimd::sve", "--target=aarch64-linux-gnu -march=armv8-a+sve -msve-vector-bits=256", "aarch64"),
+    ("sve512", "xsimd::sve", "--target=aarch64-linux-gnu -march=armv8-a+sve -msve-vector-bits=512", "aarch64"),
+    ("wasm", "xsimd::wasm", "--target=wasm32-unknown-emscripten -msimd128", "wasm32"),
+]
 ARCH_BY_NAME = {a[0]: a for a in ARCHS + ARCHS_COMPILE_ONLY}
+
+
+def cross_cmd(arch, src):
+    """argv of the syntax-only compile of `src` for a cross-target architecture, or None when clang++ is missing."""
+    import shutil
+    clang = shutil.which("clang++") or shutil.which("clang++-14")
+    if not clang:
+        return None
+    name, tag, flags, shim = next(a for a in ARCHS_CROSS if a[0] == arch)
+    return [sys.executable, os.path.join(VERIF, "engine", "syntax_only.py"), clang, "-std=c++17"] + flags.split() + \
+        ["-isystem", os.path.join(VERIF, "shim", shim)] + _XSYS + ["-I" + os.path.join(REPO, "include"), src]
 
 
 def cpu_flags():
